@@ -33,6 +33,16 @@ __CPROVER_ensures(vf_k_created == ((__CPROVER_old(vf_calls) == vf_k && vf_k != v
 __CPROVER_ensures(__CPROVER_old(vf_calls) == vf_k ? (vf_a_pool == p_pool && vf_a_arg == arg && vf_a_attr == p_attr && vf_a_sched == p_sched && vf_a_func == thread_func && vf_a_type == (unsigned)thread_type && vf_a_op == (int)pool_op)
                                                   : (vf_a_pool == __CPROVER_old(vf_a_pool) && vf_a_arg == __CPROVER_old(vf_a_arg) && vf_a_attr == __CPROVER_old(vf_a_attr) && vf_a_sched == __CPROVER_old(vf_a_sched) && vf_a_func == __CPROVER_old(vf_a_func) && vf_a_type == __CPROVER_old(vf_a_type) && vf_a_op == __CPROVER_old(vf_a_op)));
 
+/* thread_revive and the directed switch by recording contracts (their own units: thread_revive, sw_yield_to) */
+unsigned vf_revives, vf_yields_to; int vf_rev_fail; const void *vf_r_pool, *vf_r_arg, *vf_r_thread, *vf_y_self, *vf_y_target; void (*vf_r_func)(void *); int vf_r_op, vf_y_kind; unsigned vf_y_after_revive; const void *vf_out_at_yield; ABT_thread *vf_outp;
+ABTU_ret_err static inline int thread_revive(ABTI_global *p_global, ABTI_local *p_local, ABTI_pool *p_pool, void (*thread_func)(void *), void *arg, thread_pool_op_kind pool_op, ABTI_thread *p_thread)
+__CPROVER_assigns(vf_revives, vf_r_pool, vf_r_arg, vf_r_thread, vf_r_func, vf_r_op)
+__CPROVER_ensures(vf_revives == __CPROVER_old(vf_revives) + 1 && vf_r_pool == p_pool && vf_r_arg == arg && vf_r_thread == p_thread && vf_r_func == thread_func && vf_r_op == (int)pool_op)
+__CPROVER_ensures(__CPROVER_return_value == (vf_rev_fail ? ABT_ERR_MEM : ABT_SUCCESS));
+static inline void ABTI_ythread_yield_to(ABTI_xstream **pp_local_xstream, ABTI_ythread *p_self, ABTI_ythread *p_target, ABTI_ythread_yield_to_kind kind, ABT_sync_event_type sync_event_type, void *p_sync)
+__CPROVER_assigns(vf_yields_to, vf_y_self, vf_y_target, vf_y_kind, vf_out_at_yield)
+__CPROVER_ensures(vf_yields_to == __CPROVER_old(vf_yields_to) + 1 && vf_y_self == p_self && vf_y_target == p_target && vf_y_kind == (int)kind && vf_out_at_yield == (vf_outp ? (const void *)*vf_outp : NULL));
+
 static ABTI_global glob; static ABTI_xstream xs, xtarget; static ABTI_thread selft; static ABTI_ythread YK, YS; static ABTI_pool pool, mainpool; static ABTI_sched msched; static ABTI_thread_attr attrobj;
 static void work(void *a) { } static int arg_dummy_;
 static void setup(void) { gp_ABTI_global = &glob; { int e; if (e) lp_ABTI_local = NULL; else { lp_ABTI_local = (ABTI_local *)&xs; xs.p_thread = &selft; } } vf_yk = &YK; vf_ys = &YS; vf_calls = 0; vf_k_created = 0; vf_bad = 0; }
@@ -77,4 +87,37 @@ void h_api_create_many_any(void)
     VF_REACH("create_many any"); VF_COVER(r == ABT_ERR_MEM && withouts && vf_fail_at == vf_k && vf_k == 3, "entry k's own creation fails"); VF_COVER(r == ABT_SUCCESS && n > 5 && withouts, "long list"); VF_COVER(r == ABT_ERR_INV_POOL, "NULL pool in the list");
 done:
     free(pools); free(funcs); free(args); free(outs);
+}
+
+/* ABT_thread_revive / ABT_thread_revive_to / ABT_thread_create_to */
+void h_api_revive(void)
+{
+    setup(); vf_k = 0; vf_revives = vf_yields_to = 0; { int f; vf_rev_fail = !!f; vf_fail_at = f ? 0 : -1; } vf_outp = NULL;
+    static ABTI_ythread selfy, tgty; static ABTI_thread tgtt; int which; VF_ASSUME(0 <= which && which <= 2); /* 0 revive, 1 revive_to, 2 create_to */
+    int caller; VF_ASSUME(0 <= caller && caller <= 3); /* 0 external, 1 tasklet, 2 ULT, 3 main-scheduler ULT */
+    if (caller == 0) lp_ABTI_local = NULL; else { lp_ABTI_local = (ABTI_local *)&xs; xs.p_thread = caller == 1 ? &selft : &selfy.thread; selft.type = 0; selfy.thread.type = ABTI_THREAD_TYPE_YIELDABLE | (caller == 3 ? ABTI_THREAD_TYPE_MAIN_SCHED : 0); }
+    int tk; VF_ASSUME(0 <= tk && tk <= 2); /* target: NULL handle, a ULT, a tasklet */ ABTI_thread *tp = tk == 1 ? &tgty.thread : &tgtt; tgty.thread.type = ABTI_THREAD_TYPE_YIELDABLE | ABTI_THREAD_TYPE_NAMED; tgtt.type = ABTI_THREAD_TYPE_NAMED;
+    int st; tp->state.val = st; int nullpool; ABT_pool ph = nullpool ? ABT_POOL_NULL : (ABT_pool)&pool; int arg; ABT_thread h = tk == 0 ? ABT_THREAD_NULL : (ABT_thread)tp; ABT_thread h0 = h;
+    int r; int want;
+    if (which == 0) r = ABT_thread_revive(ph, work, &arg, &h);
+    else if (which == 1) r = ABT_thread_revive_to(ph, work, &arg, &h);
+    else { h = (ABT_thread)0x55; h0 = h; vf_outp = want ? &h : NULL; r = ABT_thread_create_to(ph, work, &arg, ABT_THREAD_ATTR_NULL, want ? &h : NULL); }
+    int needs_ult = which != 0;
+    if (needs_ult && caller == 0) { VF_ASSERT(r == ABT_ERR_INV_XSTREAM && vf_revives + vf_calls + vf_yields_to == 0 && h == h0, "a directed switch from an external thread: refused, nothing done"); VF_REACH("ext"); return; }
+    if (needs_ult && (caller == 1 || caller == 3)) { VF_ASSERT(r == ABT_ERR_INV_THREAD && vf_revives + vf_calls + vf_yields_to == 0 && h == h0, "a tasklet or a main scheduler cannot switch to another ULT: refused, nothing done"); VF_REACH("not a plain ULT"); return; }
+    if (which != 2) {
+        int bad_target = tk == 0 || st != ABT_THREAD_STATE_TERMINATED || (which == 1 && tk == 2);
+        if (bad_target) { VF_ASSERT(r == ABT_ERR_INV_THREAD && vf_revives == 0 && vf_yields_to == 0 && h == h0 && (tk == 0 || tp->state.val == st), "revive only from TERMINATED (and revive_to only of a ULT): anything else is refused with the work unit untouched"); VF_REACH("bad target"); return; }
+        if (nullpool) { VF_ASSERT(r == ABT_ERR_INV_POOL && vf_revives == 0 && vf_yields_to == 0, "NULL pool refused, nothing done"); VF_REACH("null pool"); return; }
+        VF_ASSERT(vf_revives == 1 && vf_r_thread == tp && vf_r_pool == &pool && vf_r_func == work && vf_r_arg == &arg && vf_r_op == (int)(which == 0 ? THREAD_POOL_OP_PUSH : THREAD_POOL_OP_INIT), "one revival of THIS work unit with the caller's pool, function and argument: pushed (revive) or only associated (revive_to: the caller switches to it directly)");
+        VF_ASSERT(r == (vf_rev_fail ? ABT_ERR_MEM : ABT_SUCCESS) && h == h0, "the revival's result is the call's result; the handle is kept");
+        VF_ASSERT(vf_yields_to == ((which == 1 && !vf_rev_fail) ? 1u : 0u) && (!vf_yields_to || (vf_y_self == &selfy && vf_y_target == &tgty && vf_y_kind == (int)ABTI_YTHREAD_YIELD_TO_KIND_REVIVE_TO)), "revive_to switches to the revived ULT exactly once, only after a successful revival; revive never switches");
+        VF_REACH("revive"); VF_COVER(which == 1 && vf_yields_to == 1, "revive_to switched"); VF_COVER(which == 0 && tk == 2 && r == ABT_SUCCESS, "tasklet revived");
+    } else {
+        if (nullpool) { VF_ASSERT(r == ABT_ERR_INV_POOL && vf_calls == 0 && vf_yields_to == 0 && h == h0, "NULL pool refused, nothing created"); VF_REACH("create_to null pool"); return; }
+        VF_ASSERT(vf_calls == 1 && vf_a_pool == &pool && vf_a_func == work && vf_a_arg == &arg && vf_a_attr == NULL && vf_a_sched == NULL && vf_a_op == (int)THREAD_POOL_OP_INIT && vf_a_type == (want ? (unsigned)(ABTI_THREAD_TYPE_YIELDABLE | ABTI_THREAD_TYPE_NAMED) : (unsigned)ABTI_THREAD_TYPE_YIELDABLE), "one creation, associated with the pool but NOT pushed (the caller switches to it directly)");
+        if (vf_fail_at == 0) VF_ASSERT(r == ABT_ERR_MEM && vf_yields_to == 0 && h == h0, "failed creation: error, no switch, the output untouched");
+        else VF_ASSERT(r == ABT_SUCCESS && vf_yields_to == 1 && vf_y_self == &selfy && vf_y_target == &YK && vf_y_kind == (int)ABTI_YTHREAD_YIELD_TO_KIND_CREATE_TO && (!want || (h == (ABT_thread)&YK && vf_out_at_yield == (void *)&YK)), "success: the handle is stored BEFORE the switch (the new ULT may use it), then exactly one switch to the new ULT");
+        VF_REACH("create_to"); VF_COVER(r == ABT_SUCCESS && want, "created and switched");
+    }
 }
